@@ -11,6 +11,9 @@ is executed again in a fresh `python -c` interpreter.  Oracles (clauses of DESIG
      loaded in registration order); a difference counts only if the public-only projection of
      the history (private events deleted) does not show it;
  (b) a group initialised on T and not mutated serves, entry by entry, the public canonical values;
+ (b') the values a private table derives from mass and density (number density, interatomic distance,
+     isotope density, ion mass, the number density cached in a neutron record at init) follow its OWN
+     data, also after these were changed: a table whose calculations read another table is not isolated;
  (c) a mutation of T changes no value of the other private table (digest before/after the
      event) nor of the public table (final digest);
  (d) heap walk: no mutable object is reachable from per-atom data of two tables, no per-atom
@@ -54,6 +57,8 @@ ASSUMPTIONS = [
     'quick tier digests the x-ray group for a fixed subset of 17 elements (all elements in thorough)',
     'a public difference that the public-only projection of the history also shows is attributed to C09, not C10 (counted, not reported)',
     'fasta strings ("aa:...") are not formula-grammar strings and are not used for clause (e)',
+    "clause (b'): derived values of a private table are checked against the documented equations of density.py "
+    "evaluated on the table's own mass and density (relative 1e-12); this reads isolation in both directions",
 ]
 
 KNOWN_TRIGGER_SHARE = 0.08
@@ -65,7 +70,7 @@ D26 = 'c10.shared-missing-neutron-placeholder'
 _state = {}
 _EVAL_COUNTERS = ('digest_comparisons', 'public_event_comparisons', 'private_read_comparisons',
                   'cross_table_comparisons', 'formula_atom_checks', 'pickle_checks', 'heap_table_pairs',
-                  'private_parse_comparisons')
+                  'private_parse_comparisons', 'derived_value_checks')
 _STATE_KINDS = ('shared-object', 'foreign-reference')
 
 
